@@ -57,6 +57,23 @@ SEEDS = [
  ('C10-3', '_round2/C10', 'patch2.diff', 'demo2_test.py', 'C10', ['C09'], 'return ToContext(...) from the last step of an if_/elif_/else_ body followed by more outline steps'),
  ('C16-2', '_round2/C16', 'patch.diff', 'demo_test.py', 'C16', ['C16'], 'PAUSE then PLAY in the same gap (second independent occurrence)'),
  ('C16-3', '_round2/C16', 'patch2.diff', 'demo2_test.py', 'C16', ['C02', 'C16'], 'process with communicator finishing with outputs that fail validation (refused FINISHED entry): never closed, still reachable'),
+ # round 3 (made against the repaired tree at 8102b25)
+ ('C11-3', '_round3/C11', 'patch.diff', 'demo_test.py', 'C11', ['C11'], 'dynamic typed namespace with a wrongly typed falsy value at any depth (third independent occurrence)'),
+ ('C11-4', '_round3/C11', 'patch2.diff', 'demo2_test.py', 'C11', ['C11'], 'namespace with populate_defaults=False AND a default of its own, not supplied'),
+ ('C12-2', '_round3/C12', 'patch.diff', 'demo_test.py', 'C12', ['C12'], 'typed dynamic output namespace, wrongly typed value emitted >= 2 levels below it through a not yet declared sub-namespace'),
+ ('C12-3', '_round3/C12', 'patch2.diff', 'demo2_test.py', 'C12', ['C12'], 'rejected output for a namespaced port whose namespace holds no outputs yet: empty dicts stay behind'),
+ ('C13-2', '_round3/C13', 'patch.diff', 'demo_test.py', 'C13', ['C13', 'C05', 'C06'], 'step returns Wait(f), pause requested during the transition into WAITING (hook/listener), then play(): f runs without resume'),
+ ('C13-3', '_round3/C13', 'patch2.diff', 'demo2_test.py', 'C13', ['C13', 'C19'], 'Continue(f, mutable positional arg), plain Bundle checkpoint, live process mutates the argument, restore'),
+ ('C15-3', '_round3/C15', 'patch.diff', 'demo_test.py', 'C15', ['C15'], 'include/exclude rule with >= 3 path components (second independent occurrence)'),
+ ('C15-4', '_round3/C15', 'patch2.diff', 'demo2_test.py', 'C15', ['C15'], 'nested namespace no rule reaches into, then a port in it changed on either side (second independent occurrence)'),
+ ('C17-2', '_round3/C17', 'patch.diff', 'demo_test.py', 'C17', ['C17'], 'launcher built with both load_context and a custom loader, then a continue task (second independent occurrence)'),
+ ('C17-3', '_round3/C17', 'patch2.diff', 'demo2_test.py', 'C17', ['C17'], 'launch/continue without nowait of a process whose on_finished hook raises after super(): reply is the stale outputs'),
+ ('C18-2', '_round3/C18', 'patch.diff', 'demo_test.py', 'C18', ['C18'], 'code of P starting in a context where P sits below another process on the stack (child calls P.call_soon / P.play())'),
+ ('C18-3', '_round3/C18', 'patch2.diff', 'demo2_test.py', 'C18', ['C18'], 'async step that launches a child and keeps awaiting, the two interleave (shared stack list)'),
+ ('C19-2', '_round3/C19', 'patch.diff', 'demo_test.py', 'C19', ['C19'], 'tuple member carrying a mutable, mutated after save (second independent occurrence)'),
+ ('C19-3', '_round3/C19', 'patch2.diff', 'demo2_test.py', 'C19', ['C19', 'C17'], 'one loader-less LoadSaveContext reused for two loads, the first state recorded a custom loader'),
+ ('C20-3', '_round3/C20', 'patch.diff', 'demo_test.py', 'C20', ['C20'], 'nesting depth >= 2, inner future cancelled before the outer level resolves to it'),
+ ('C20-4', '_round3/C20', 'patch2.diff', 'demo2_test.py', 'C20', ['C20'], 'CancellableAction whose first run raised, then run() again'),
 ]
 
 
@@ -96,6 +113,8 @@ def main():
             continue
         if not only and os.path.exists(os.path.join(V, 'seeded', sid, 'meta.json')):
             continue   # already done in an earlier run
+        if not any(os.path.exists(os.path.join(V, 'seeded', d, pname)) for d in srcs.split(':')):
+            continue   # staging copy gone: seed was dropped (see DESIGN section 7) or already filed
         patch = find(srcs.split(':')[0] if os.path.exists(os.path.join(V, 'seeded', srcs.split(':')[0], pname)) else srcs, pname)
         demo = find(srcs, dname)
         notes = None
@@ -128,7 +147,7 @@ def main():
         shutil.copy(demo, os.path.join(dst, 'demo_test.py'))
         if notes:
             shutil.copy(notes, os.path.join(dst, 'agent_notes.md'))
-        meta = dict(seed=sid, breaks_property=prop, needs_to_manifest=needs, made_against='repaired tree' if '_round2' in srcs else 'pinned tree (ported to the repaired tree where the context changed)',
+        meta = dict(seed=sid, breaks_property=prop, needs_to_manifest=needs, made_against='repaired tree' if '_round' in srcs else 'pinned tree (ported to the repaired tree where the context changed)',
                     confirmed_on_repo_commit=head,
                     what_i_ran=dict(suite_with_change=suite, demo_with_change=demo_patch, demo_without_change=demo_base,
                                     commands=['cd <scratch worktree of /repo HEAD>; patch -p1 -F3 < patch.diff',
